@@ -994,15 +994,28 @@ func (c *canon) condCall(x *ast.CallExpr) *cnode {
 			return atom("isSentinel("+s+")", "notSentinel("+s+")")
 		}
 	}
-	// a helper of the module whose body is `return <expr>`: inline it (one level), parameters ↦ arguments
+	// a helper of the module whose body is `return <expr>`, possibly after declarations of locals that are assigned once
+	// (`info, err := os.Stat(p); return err == nil && info.Size() == 0`): inline it (one level), parameters ↦ arguments,
+	// such locals ↦ their defining expressions — the same text the condition has when it is written out at the call site
 	if f != nil && c.lookup != nil && c.depth < 2 {
-		if h := c.lookup(f); h != nil && h.fd.Body != nil && len(h.fd.Body.List) == 1 {
-			if rs, ok := h.fd.Body.List[0].(*ast.ReturnStmt); ok && len(rs.Results) == 1 {
+		if h := c.lookup(f); h != nil && h.fd.Body != nil && len(h.fd.Body.List) >= 1 && len(h.fd.Body.List) <= 4 {
+			list := h.fd.Body.List
+			declsOnly := true
+			for _, st := range list[:len(list)-1] {
+				as, ok := st.(*ast.AssignStmt)
+				if !ok || as.Tok != token.DEFINE {
+					declsOnly = false
+				}
+			}
+			if rs, ok := list[len(list)-1].(*ast.ReturnStmt); ok && len(rs.Results) == 1 && declsOnly {
 				sig, _ := f.Type().(*types.Signature)
 				if sig != nil && !sig.Variadic() && sig.Params().Len() == len(x.Args) {
 					hc := &canon{mod: c.mod, info: h.info, defs: map[types.Object]defSite{}, nasg: map[types.Object]int{},
 						decl: map[types.Object]bool{}, addr: map[types.Object]bool{}, rng: map[types.Object]rangeSite{},
 						subst: map[types.Object]string{}, lookup: c.lookup, depth: c.depth + 1}
+					if len(list) > 1 {
+						hc.scanDefs(h.fd.Body)
+					}
 					errParam := map[types.Object]bool{}
 					for i := 0; i < sig.Params().Len(); i++ {
 						hc.subst[sig.Params().At(i)] = c.expr(x.Args[i])
@@ -1038,7 +1051,82 @@ var notPure = map[string]bool{
 	"path/filepath.EvalSymlinks": true, "time.NewTicker": true, "time.NewTimer": true, "time.Sleep": true, "time.After": true,
 	"time.AfterFunc": true, "time.Tick": true, "time.Ticker.Stop": true, "time.Ticker.Reset": true, "time.Timer.Stop": true,
 	"time.Timer.Reset": true, "sort.Strings": true, "sort.Sort": true, "sort.Slice": true, "sort.SliceStable": true, "sort.Stable": true,
-	"sort.Ints": true,
+	"sort.Ints": true, "sort.Float64s": true, "sort.StringSlice.Sort": true, "sort.IntSlice.Sort": true,
+	// package slices: everything that writes into its argument
+	"slices.Sort": true, "slices.SortFunc": true, "slices.SortStableFunc": true, "slices.Reverse": true,
+}
+
+// stringSortArg: the list when the call is one of the standard ways of sorting a []string in place into ascending order —
+// sort.Strings(x), slices.Sort(x), sort.Sort / sort.Stable(sort.StringSlice(x)), sort.StringSlice(x).Sort(),
+// slices.SortFunc / slices.SortStableFunc(x, strings.Compare | cmp.Compare[string]) — else nil.  All of them leave the same
+// slice behind (strings are totally ordered, equal strings are indistinguishable).
+func (c *canon) stringSortArg(call *ast.CallExpr) ast.Expr {
+	isStrings := func(e ast.Expr) bool {
+		t := c.typeOf(e)
+		if t == nil {
+			return false
+		}
+		sl, ok := t.Underlying().(*types.Slice)
+		if !ok {
+			return false
+		}
+		b, ok := sl.Elem().Underlying().(*types.Basic)
+		return ok && b.Kind() == types.String
+	}
+	// sort.StringSlice(x) → x
+	conv := func(e ast.Expr) ast.Expr {
+		ce, ok := ast.Unparen(e).(*ast.CallExpr)
+		if !ok || len(ce.Args) != 1 {
+			return nil
+		}
+		if tv, ok := c.info.Types[ce.Fun]; ok && tv.IsType() && c.typeStr(tv.Type) == "sort.StringSlice" && isStrings(ce.Args[0]) {
+			return ce.Args[0]
+		}
+		return nil
+	}
+	// method form: sort.StringSlice(x).Sort()
+	if sx, ok := ast.Unparen(call.Fun).(*ast.SelectorExpr); ok && len(call.Args) == 0 && sx.Sel.Name == "Sort" {
+		if _, isSel := c.info.Selections[sx]; isSel {
+			return conv(sx.X)
+		}
+	}
+	f := c.calledFunc(call)
+	if f == nil || f.Pkg() == nil {
+		return nil
+	}
+	name := f.Pkg().Path() + "." + f.Name()
+	switch name {
+	case "sort.Strings", "slices.Sort":
+		if len(call.Args) == 1 && isStrings(call.Args[0]) {
+			return call.Args[0]
+		}
+	case "sort.Sort", "sort.Stable":
+		if len(call.Args) == 1 {
+			return conv(call.Args[0])
+		}
+	case "slices.SortFunc", "slices.SortStableFunc":
+		if len(call.Args) == 2 && isStrings(call.Args[0]) {
+			cmpf := ast.Unparen(call.Args[1])
+			if ix, ok := cmpf.(*ast.IndexExpr); ok { // cmp.Compare[string]
+				cmpf = ix.X
+			}
+			var id *ast.Ident
+			switch y := cmpf.(type) {
+			case *ast.SelectorExpr:
+				id = y.Sel
+			case *ast.Ident:
+				id = y
+			}
+			if id != nil {
+				if g, ok := c.info.Uses[id].(*types.Func); ok && g.Pkg() != nil {
+					if n := g.Pkg().Path() + "." + g.Name(); n == "strings.Compare" || n == "cmp.Compare" {
+						return call.Args[0]
+					}
+				}
+			}
+		}
+	}
+	return nil
 }
 
 var logTerminators = map[string]bool{"Panic": true, "Panicf": true, "Panicln": true, "Fatal": true, "Fatalf": true, "Fatalln": true}
